@@ -355,3 +355,14 @@ impl Hasher for HH {
         self.mode.hash_tag(self.acc as u32)
     }
 }
+
+impl serde::Serialize for K {
+    fn serialize<S: serde::Serializer>(&self, s: S) -> Result<S::Ok, S::Error> {
+        s.serialize_u32(self.tag)
+    }
+}
+impl serde::Serialize for V {
+    fn serialize<S: serde::Serializer>(&self, s: S) -> Result<S::Ok, S::Error> {
+        s.serialize_u64(self.payload)
+    }
+}
